@@ -2518,8 +2518,9 @@ def reset_data(m: types.Model, d: types.Data, reset: Optional[wp.array] = None):
         return
 
     solver_niter_out[worldid] = 0
-    if worldid == 0:
-      nacon_out[0] = 0
+    if wp.static(reset is None):
+      if worldid == 0:
+        nacon_out[0] = 0
     ne_out[worldid] = 0
     nf_out[worldid] = 0
     nl_out[worldid] = 0
@@ -2686,7 +2687,11 @@ def reset_data(m: types.Model, d: types.Data, reset: Optional[wp.array] = None):
       contact_vert_out[conid] = wp.vec2i(0, 0)
     for i in range(nefcaddress):
       contact_efc_address_out[conid, i] = -1
-    contact_worldid_out[conid] = 0
+    if wp.static(reset is None):
+      contact_worldid_out[conid] = 0
+    else:
+      # nacon is shared by all worlds and stays as it is: mark the entry as belonging to no world
+      contact_worldid_out[conid] = -1
     contact_type_out[conid] = 0
     contact_geomcollisionid_out[conid] = 0
     contact_adhesion_out[conid] = 0.0
